@@ -132,8 +132,47 @@ fn nested_collections(seed: u64, rep: &mut Report) {
     }
 }
 
+/// Element generators whose elements carry no data (unit, a marker struct): the collection still
+/// has exactly the requested number of elements, and the generator was asked exactly that often.
+fn zero_sized_elements(seed: u64, rep: &mut Report) {
+    #[derive(Debug, Clone, Copy, PartialEq)]
+    struct Marker;
+    struct Units(std::cell::Cell<usize>);
+    impl Distribution<()> for Units {
+        fn sample<R: Rng + ?Sized>(&self, rng: &mut R) {
+            let _ = rng.next_u32();
+            self.0.set(self.0.get() + 1);
+        }
+    }
+    impl Distribution<Marker> for Units {
+        fn sample<R: Rng + ?Sized>(&self, rng: &mut R) -> Marker {
+            let _ = rng.next_u32();
+            self.0.set(self.0.get() + 1);
+            Marker
+        }
+    }
+    for size in [0usize, 1, 2, 7, 64, 1000, 65_537] {
+        vh_core::shard::set_context(format!("C18 collection of {size} zero-sized elements"));
+        let mut rng = TraceRng::new(mix(seed, 0x257 + size as u64));
+        let u = Units(std::cell::Cell::new(0));
+        let r = catch(|| {
+            let a: Vec<()> = Generator::new(&u, size).sample(&mut rng);
+            let b: Vec<Marker> = (&u).to_collection_generator(size).sample(&mut rng);
+            (a.len(), b.len())
+        });
+        rep.eval();
+        rep.count("collection:zero-sized-elements");
+        rep.distinct(fnv_str(&format!("zst{size}")));
+        match r {
+            Ok((a, b)) if a == size && b == size && u.0.get() == 2 * size => {}
+            other => rep.violation("C18/collection/zero-sized-elements/size", || json!({"requested": size, "observed (Vec<()> len, Vec<Marker> len)": format!("{other:?}"), "element_generator_calls": u.0.get(), "expected_calls": 2 * size})),
+        }
+    }
+}
+
 fn collections(seed: u64, rep: &mut Report) {
     nested_collections(seed, rep);
+    zero_sized_elements(seed, rep);
     let mut sizes: Vec<usize> = (0..=130).collect();
     sizes.extend([191, 192, 193, 255, 256, 257, 320, 511, 512, 513, 640, 1000, 1023, 1024, 1025, 2048, 4096, 4097, 10_000, 65_536, 65_537, 131_073, 300_000, 1_048_577, 1_200_000]);
     for (k, &size) in sizes.iter().enumerate() {
